@@ -48,6 +48,8 @@ def generate(tier, seed, work, stats):
         cases.append(dict(c, spool="merged", family="random-merged-names"))
     for c in c02.random_pairs(1500 if tier == "quick" else 30000, seed + 34, nq=5, nt=6):       # pair names that can be split in two ways
         cases.append(dict(c, spool="joined", family="random-joined-names"))
+    for c in c02.random_pairs(300 if tier == "quick" else 3000, seed + 36):       # symbols that are not strings
+        cases.append(dict(c, ypool="int", family="random-integer-symbols"))
     for c in c02.random_pairs(500 if tier == "quick" else 10000, seed + 35):       # 0 and "0" are different states
         cases.append(dict(c, spool="mixed", family="random-mixed-names"))
     # P3: the calls the repository's own tests make, re-judged by the trace specification
@@ -110,4 +112,8 @@ def features(ev, clause):
         fb = fa.fa_features(ev["B"])
         f["B.deterministic"] = fb["deterministic"]
         f["B.n_start"] = min(fb["n_start"], 2)
+    syms = list(ev["A"]["symbols"]) + list(ev.get("B", {}).get("symbols", []))
+    # union / concatenate / kleene_star are computed on regular expressions (to_regex): see F-C06-2
+    f["rational_on_nonstring_symbols"] = ev.get("op") in ("union", "or", "concatenate", "add", "kleene_star") and \
+        any(not y.startswith("s:") for y in syms)
     return f
